@@ -731,7 +731,7 @@ impl KotoIterator for ByteIterator {
     fn next_back(&mut self) -> Option<KIteratorOutput> {
         if self.end > self.index {
             self.end -= 1;
-            let result = (self.bytes)[self.index];
+            let result = (self.bytes)[self.end];
             Some(result.into())
         } else {
             None
